@@ -355,6 +355,10 @@ func c19Real(c *h.Ctx) {
 		return
 	}
 	s.SignalAll(h.SetupIDs(e.Setup))
+	// a table-level event around the moment the hand opens re-publishes the table, possibly with status playing
+	// and no hand state yet
+	time.Sleep(time.Duration(r.Intn(1500)) * time.Microsecond)
+	s.TE.PlayerExtendActionDeadline("", 0)
 	// the harness plays everybody but "me"
 	script := &h.Script{Policy: h.CallStation, MaxWait: 30 * time.Second}
 	script.OnRequest = func(e *h.Ev, kind string, asked []string) []string {
